@@ -333,6 +333,7 @@ func runC15(c *Check) {
 	c.ruleReadErrorsChecked("R3", []string{"client"}, 80)
 	c.ruleWriteOnlyWhatSerialized("R6")
 	c.rulePreallocateOnlyAsCapacity("R8")
+	c.rulePooledBufferNotStored("R9", 8)
 }
 
 // readerFunctions: module functions that take a stream to read from.
